@@ -89,9 +89,12 @@ class Script:
 
     def __init__(self, seed, kind):
         self.seed, self.kind, self.calls = seed, kind, []
+        self.muted = False          # calls made for OTHER quantities (siblings) are answered but not recorded
 
     def __call__(self, loc=0.0, scale=1.0, size=None):
         n = int(size)
+        if self.muted:
+            return np.array(gen_offsets("uniform", random.Random("{}:muted:{}".format(self.seed, n)), n), dtype=float)
         if isinstance(size, bool) or n > MAX_FAKE or (self.kind != "real" and n > 4096):
             raise RuntimeError("harness: normal() asked for {} offsets".format(size))
         if self.kind == "real":      # the real generator, seeded per call (oracle runs only)
@@ -247,9 +250,122 @@ def eval_exact(tree, defs, x):
     return None if b == 0 else a / b
 
 
+def err_units(tree, defs, x, spread):
+    """(value, E): float evaluation at the point x and a bound E such that the rounding error of evaluating the formula in
+    double precision on draws around x is about 1e-16 * E (x_i = v_i + e_i * o is itself rounded: E_leaf = |v_i| + 4 e_i)"""
+    t = tree[0]
+    if t == "var":
+        return x[tree[1]], abs(x[tree[1]]) + 4 * spread[tree[1]]
+    if t == "cst":
+        return float.fromhex(tree[1]), 0.0
+    if t == "ref":
+        return err_units(defs[tree[1]], defs, x, spread)
+    if t in ("neg", "sqrtsq"):
+        a, ea = err_units(tree[1], defs, x, spread)
+        return (-a if t == "neg" else abs(a)), ea + abs(a)
+    a, ea = err_units(tree[1], defs, x, spread)
+    b, eb = err_units(tree[2], defs, x, spread)
+    if t == "add":
+        return a + b, ea + eb + abs(a + b)
+    if t == "sub":
+        return a - b, ea + eb + abs(a - b)
+    if t == "mul":
+        return a * b, abs(a) * eb + abs(b) * ea + abs(a * b)
+    bb = max(abs(b), eb, 1e-150)
+    try:
+        return a / (b if abs(b) >= 1e-150 else bb), ea / bb + abs(a) * eb / (bb * bb) + abs(a) / bb
+    except (ZeroDivisionError, OverflowError):
+        return 0.0, float("inf")
+
+
+def rounding_units(case):
+    """E of the final formula at the central values of the sources (largest over the source edits of the history)"""
+    vs, es = [], []
+    for s in case["sources"]:
+        if s["kind"] == "single":
+            vs.append(float.fromhex(s["value"]))
+            es.append(float.fromhex(s["error"]))
+        else:
+            d = [float.fromhex(h) for h in s["data"]]
+            vs.append(sum(d) / len(d))
+            es.append(max(d) - min(d))
+    best = err_units(case["defs"][-1], case["defs"], vs, es)[1]
+    for o in case.get("ops", []):
+        if o[0] == "set_src":
+            vs2, es2 = list(vs), list(es)
+            vs2[o[1]], es2[o[1]] = float.fromhex(o[2]), float.fromhex(o[3])
+            best = max(best, err_units(case["defs"][-1], case["defs"], vs2, es2)[1])
+            vs, es = vs2, es2
+    return best
+
+
+def ill_conditioned(case, run):
+    """True when the spread of the simulated outcomes is so small compared with the magnitudes inside the formula that
+    double-precision rounding (about 1e-16 * E) is visible at the 1e-9 level of the comparison: such inputs say nothing
+    about the implementation (x*x - 0.5 with x about 1e-12; products of differences of numbers near 2^30)"""
+    E = rounding_units(case)
+    if not (E > 0) or not math.isfinite(E):
+        return False
+    spreads = []
+    for ob, _, _ in run["obs"]:
+        if ob[0] == "samples" and len(ob[1]) >= 2:
+            xs = [float.fromhex(x) for x in ob[1]]
+            spreads.append(max(xs) - min(xs))
+        elif ob[0] == "err" and ob[1] is not None:
+            spreads.append(abs(float.fromhex(ob[1])))
+    spreads = [s for s in spreads if s > 0] or ([0.0] if spreads else [])
+    if not spreads:
+        return False
+    if min(spreads) == 0.0 and all(float.fromhex(e) == 0.0 for _, e, _ in run["srcs"]):
+        return False
+    return min(spreads) < 1e-6 * E
+
+
 # ---------------------------------------------------------------------------------------------------
 # sources
 # ---------------------------------------------------------------------------------------------------
+SCALES = [2.0 ** -30, 2.0 ** -40, 2.0 ** 30]          # about 1e-9, 1e-12, 1e9 (powers of two keep the arithmetic exact)
+
+
+def gen_source_scaled(rng, repeated_ok=True, positive_error=False, scale=None, offset=None):
+    """like gen_source; [scale] multiplies value and uncertainty, [offset] adds a large offset to the value
+    (one-pass formulas cancel on 2^30 + 1), special central values, now and then a tiny uncertainty"""
+    s = gen_source(rng, repeated_ok=repeated_ok and scale is None and offset is None, positive_error=positive_error)
+    if s["kind"] != "single":
+        return s
+    v, e = float.fromhex(s["value"]), float.fromhex(s["error"])
+    r = rng.random()
+    if r < 0.2:
+        v = rng.choice([0.0, 1.0, -1.0, 2.0, 10.0, 100.0])
+    if rng.random() < 0.08 and e > 0:
+        e = e * 2.0 ** -30                                  # one tiny uncertainty among ordinary ones
+    if scale is not None:
+        v, e = v * scale, e * scale
+    if offset is not None:
+        v = v + offset
+    return {"kind": "single", "value": fx(v), "error": fx(e)}
+
+
+def gen_sources(rng, k, repeated_ok=True, positive_error=False, allow_offset=True):
+    """k sources of one problem: ordinary / all scaled by 1e-9, 1e-12 or 1e9 / with a large common offset; now and then
+    equal central values of distinct measurements and equal names"""
+    r = rng.random()
+    scale = offset = None
+    if r < 0.15:
+        scale = rng.choice(SCALES)
+    elif r < 0.2 and allow_offset:
+        offset = 2.0 ** 30
+    out = [gen_source_scaled(rng, repeated_ok, positive_error, scale, offset) for _ in range(k)]
+    singles = [s for s in out if s["kind"] == "single"]
+    if len(singles) >= 2 and rng.random() < 0.25:
+        for s in (singles if rng.random() < 0.5 else singles[:2]):
+            s["value"] = singles[0]["value"]
+    if rng.random() < 0.2:
+        for s in out:
+            s["name"] = "x"
+    return out, (scale is not None or offset is not None)
+
+
 def gen_source(rng, repeated_ok=True, positive_error=False):
     if repeated_ok and rng.random() < 0.2:
         n = rng.choice([2, 4, 4, 8])
@@ -265,9 +381,10 @@ def gen_source(rng, repeated_ok=True, positive_error=False):
 
 def make_measurement(spec):
     q = _q()
+    kw = {"name": spec["name"]} if spec.get("name") else {}
     if spec["kind"] == "repeated":
-        return q.Measurement([float.fromhex(h) for h in spec["data"]])
-    return q.Measurement(float.fromhex(spec["value"]), float.fromhex(spec["error"]))
+        return q.Measurement([float.fromhex(h) for h in spec["data"]], **kw)
+    return q.Measurement(float.fromhex(spec["value"]), float.fromhex(spec["error"]), **kw)
 
 
 # ---------------------------------------------------------------------------------------------------
@@ -348,12 +465,30 @@ STRAT = {"monte-carlo-mean-and-std": "MeanStd", "monte-carlo-mode_and_confidence
 class Session:
     """one derived value built from a case description, driven op by op"""
 
-    def __init__(self, case):
+    def __init__(self, case, script=None):
+        with warnings.catch_warnings():
+            warnings.simplefilter("ignore")
+            self._init(case, script)
+
+    def _init(self, case, script):
         q = _q()
         import qexpy.data.operations as op
         import qexpy.settings.literals as lit
         self.case = case
+        self.script = script
         reset_globals()
+        if case.get("dirty"):
+            # the session does not start from a clean library: another correlated Monte Carlo quantity with equally
+            # named sources was evaluated (mean/std and mode) just before
+            p_, r_ = q.Measurement(7, 0.5, name="x"), q.Measurement(3, 0.25, name="x")
+            q.set_correlation(p_, r_, 0.5)
+            q.set_error_method(q.ErrorMethod.MONTE_CARLO)
+            q.set_monte_carlo_sample_size(7)
+            d_ = p_ * r_
+            _ = d_.value, d_.error
+            d_.mc.use_mode_with_confidence(0.5)
+            _ = d_.value, d_.error
+            q.set_error_method(q.ErrorMethod.DERIVATIVE)
         q.set_monte_carlo_sample_size(case["g"])
         self.meas = [make_measurement(s) for s in case["sources"]]
         for i, j, rho in case.get("corr", []):
@@ -362,10 +497,25 @@ class Session:
         for d in case["defs"]:
             objs.append(build_value(d, self.meas, objs))
         self.res = objs[-1]
-        if case.get("method", "global") == "global":
+        meth = case.get("method", "global")     # every public spelling of "use Monte Carlo"
+        if meth == "global":
             q.set_error_method(q.ErrorMethod.MONTE_CARLO)
+        elif meth == "global-str":
+            q.set_error_method("monte-carlo")
+        elif meth == "own-str":
+            self.res.error_method = "monte-carlo"
         else:
             self.res.error_method = q.ErrorMethod.MONTE_CARLO
+        self.objs = objs
+        # intermediate results that were READ under Monte Carlo before the final formula is evaluated: they hold
+        # their own (different) sample sets of the same size, which must not leak into the final simulation.
+        # The normal() calls they consume are a prelude (see Session.prelude) that the model does not see.
+        import qexpy.data.data as dt
+        if case.get("pre_read"):
+            for o_ in objs[:-1]:
+                if isinstance(o_, dt.DerivedValue):
+                    o_.error_method = q.ErrorMethod.MONTE_CARLO
+                    _ = o_.value, o_.error
         ids = list(op._find_source_measurement_ids(self.res._formula))
         by_id = {m._id: i for i, m in enumerate(self.meas)}
         self.order = [by_id[i] for i in ids]            # source order -> creation index
@@ -404,20 +554,20 @@ class Session:
         if t == "read_error":
             return ["err", num_obs(r.error)]
         if t == "set_conf":
-            r.mc.confidence = pv_to_py(o[1])
+            r.mc.confidence = to_py(o[1])
         elif t == "set_range":
-            r.mc.set_xrange(*[pv_to_py(a) for a in o[1]])
+            r.mc.set_xrange(*[to_py(a) for a in o[1]])
         elif t == "use_mode":
             if o[1] == ["noarg"]:
                 r.mc.use_mode_with_confidence()
             else:
-                r.mc.use_mode_with_confidence(pv_to_py(o[1]))
+                r.mc.use_mode_with_confidence(to_py(o[1]))
         elif t == "use_mean_std":
             r.mc.use_mean_and_std()
         elif t == "use_custom":
-            r.mc.use_custom_value_and_error(pv_to_py(o[1]), pv_to_py(o[2]))
+            r.mc.use_custom_value_and_error(to_py(o[1]), to_py(o[2]))
         elif t == "set_size":
-            r.mc.sample_size = pv_to_py(o[1])
+            r.mc.sample_size = to_py(o[1])
         elif t == "reset_size":
             r.mc.reset_sample_size()
         elif t == "recalc":
@@ -435,6 +585,27 @@ class Session:
             self.handed[o[1]][o[2]] = float.fromhex(o[3])
         elif t == "set_gsize":
             q.set_monte_carlo_sample_size(o[1])
+        elif t == "sibling":
+            # another quantity with the same formula over the same sources is built and simulated in between
+            # (its own evaluator, its own draws: nothing of it may show in this quantity)
+            muted = getattr(self.script, "muted", None)
+            if self.script is not None:
+                self.script.muted = True
+            try:
+                sobjs = []
+                for d in self.case["defs"]:
+                    sobjs.append(build_value(d, self.meas, sobjs))
+                sib = sobjs[-1]
+                sib.error_method = q.ErrorMethod.MONTE_CARLO
+                try:
+                    _ = sib.value, sib.error
+                    sib.mc.use_mode_with_confidence(0.5)
+                    _ = sib.value
+                except ValueError:       # numpy refuses 100 bins on a sample set a few ulps wide: the sibling's business
+                    pass
+            finally:
+                if self.script is not None:
+                    self.script.muted = muted
         elif t == "set_src":
             self.meas[o[1]].value = float.fromhex(o[2])
             self.meas[o[1]].error = float.fromhex(o[3])
@@ -456,6 +627,8 @@ class Session:
             except Exception as e:  # noqa
                 ob = ["exn", EXN.get(type(e).__name__, "OtherError")]
         msgs = [str(x.message) for x in w]
+        if o[0] == "sibling":       # warnings of the OTHER quantity's simulation are not this quantity's
+            return ob, False, False
         return ob, any(m.startswith("Fail to generate a physical") for m in msgs), \
             any(m.startswith("Over 10 percent") for m in msgs)
 
@@ -472,11 +645,12 @@ def run_case(case, ops=None):
     script = Script(case["seed"], case["okind"])
     with patched_normal(script):
         try:
-            s = Session(case)
+            s = Session(case, script)
+            prelude = len(script.calls)
             obs = [s.step(o) for o in (case["ops"] if ops is None else ops)]
         finally:
             reset_globals()
-    return {"obs": obs, "calls": script.calls, "order": s.order, "pos": s.pos, "srcs": s.src_snapshot,
+    return {"obs": obs, "calls": script.calls[prelude:], "order": s.order, "pos": s.pos, "srcs": s.src_snapshot,
             "corr": s.corr_matrix}
 
 
@@ -491,9 +665,40 @@ def coq_oq(h):
     return "None" if h is None else "(Some {})".format(cq(h))
 
 
+def to_py(j):
+    """tagged value -> Python object; beyond vlib.coqfmt: numpy scalars, Fraction, Decimal"""
+    t = j[0]
+    if t == "np":           # ["np", dtype name, hex float or int]
+        v = float.fromhex(j[2]) if isinstance(j[2], str) else j[2]
+        return getattr(np, j[1])(v)
+    if t == "fraction":
+        return Fraction(j[1], j[2])
+    if t == "decimal":
+        import decimal
+        return decimal.Decimal(j[1])
+    if t in ("tuple", "list"):
+        seq = [to_py(x) for x in j[1]]
+        return tuple(seq) if t == "tuple" else seq
+    return pv_to_py(j)
+
+
 def coq_pv(j):
+    """numpy scalars and Fractions are numbers.Real but not int: they cross as PFloat; a Decimal is not a Real (nor falsy
+    unless zero): it crosses as a non-empty string"""
     if j == ["noarg"]:
         return "PNone"
+    t = j[0]
+    if t == "np":
+        if j[1] == "bool_":          # numpy.bool_ is not a numbers.Real (unlike Python's bool); np.bool_(1) is truthy
+            return '(PStr "numpy.bool_")'
+        v = float.fromhex(j[2]) if isinstance(j[2], str) else j[2]
+        return "(PFloat {})".format(qlit(float(getattr(np, j[1])(v))))
+    if t == "fraction":
+        return "(PFloat ({} # {}))".format(Fraction(j[1], j[2]).numerator, Fraction(j[1], j[2]).denominator)
+    if t == "decimal":
+        return '(PStr "decimal")'
+    if t in ("tuple", "list"):
+        return "({} {})".format("PTuple" if t == "tuple" else "PList", coq_list([coq_pv(x) for x in j[1]]))
     return pv_to_coq(j)
 
 
@@ -527,6 +732,8 @@ def coq_op(o, pos, k):
         return "(Mutate {} {} {})".format(o[1], o[2], cq(o[3]))
     if t == "set_gsize":
         return "(SetGlobalSize {})".format(zlit(o[1]))
+    if t == "sibling":
+        return "(Mutate 4000 0 0)"       # nothing happens to THIS quantity (no such returned array)
     if t == "set_src":
         return "(SetSrc {} {} {})".format(pos.get(o[1], k), cq(o[2]), cq(o[3]))
     raise ValueError(o)
@@ -550,6 +757,26 @@ def coq_obs(ob):
     raise ValueError(ob)
 
 
+def magnitude(run):
+    """largest magnitude among the numbers of a run (sources, observed values, errors, samples)"""
+    m = 0.0
+    for v, e, sd in run["srcs"]:
+        m = max(m, abs(float.fromhex(v)), abs(float.fromhex(e)))
+    for ob, _, _ in run["obs"]:
+        if ob[0] in ("val", "err") and ob[1] is not None:
+            m = max(m, abs(float.fromhex(ob[1])))
+        elif ob[0] == "samples":
+            for x in ob[1]:
+                m = max(m, abs(float.fromhex(x)))
+    return m if m > 0 else 1.0
+
+
+def coq_atol(m):
+    """1e-10 times the magnitude, as an exact rational"""
+    f = Fraction(m) / 10 ** 10
+    return "({} # {})".format(f.numerator, f.denominator)
+
+
 def coq_history_case(case, run, intern):
     pos, k = run["pos"], len(run["order"])
     e = coq_expr(case["defs"][-1], case["defs"], pos)
@@ -559,7 +786,7 @@ def coq_history_case(case, run, intern):
     calls = coq_list([intern(coq_list([qlit(x) for x in c])) for c in run["calls"]])
     steps = coq_list(["({}, {}, ({}, {}))".format(coq_op(o, pos, k), coq_obs(ob), coq_bool(w1), coq_bool(w2))
                       for o, (ob, w1, w2) in zip(case["ops"], run["obs"])])
-    return "({}, {}, {}, {}, {}, {})".format(e, C, srcs, zlit(case["g"]), calls, steps)
+    return "({}, {}, {}, {}, {}, {}, {})".format(coq_atol(magnitude(run)), e, C, srcs, zlit(case["g"]), calls, steps)
 
 
 def history_shards(cases_runs, per=40):
@@ -578,6 +805,6 @@ def first_bad_step(case, run):
     """ask the model which step of a disagreeing history is the first one that differs (for reports)"""
     intern = Interner()
     term = coq_history_case(case, run, intern)
-    text = ("let '(e, C, srcs0, g, calls, h) := {} in first_bad (eval e) C calls (init srcs0 g) h 0".format(term))
+    text = ("let '(atol, e, C, srcs0, g, calls, h) := {} in first_bad atol (eval e) C calls (init srcs0 g) h 0".format(term))
     ok, out = coq.eval_terms("MC", HEADER + intern.text(), [text])
     return out.strip()[-200:] if ok else None
